@@ -50,6 +50,33 @@ def check_chain(case, ev):
     multi, exc = guarded(lambda: core.run_io(FileAnonymizer(**_kw(case, pwd, ip, words, asn)), text))
     if exc is not None:
         return core.exc_finding(exc, case, "multi/")
+    cfg = case["cfg"]
+    undo_ = bool(case["undo"]) and ip
+    if case.get("cli") and (pwd or ip or words or asn) and cfg["B4"] == cfg["B6"] and cfg["prefixes"] != [] and cfg["salt"] and not cfg["salt"].startswith("-") and "\x00" not in cfg["salt"] and "\r" not in text:  # (a bare CR is a line end for a file opened in text mode, not for an in-memory stream)
+        # the same subset through the command line: identical to the multi-feature library result
+        import os
+        import shutil
+        import tempfile
+
+        from netconan.netconan import main
+
+        d = tempfile.mkdtemp(prefix="vf-c15-")
+        try:
+            with open(os.path.join(d, "in.cfg"), "w", encoding="utf-8", newline="") as fh:
+                fh.write(text)
+            argv = ["-i", os.path.join(d, "in.cfg"), "-o", os.path.join(d, "out.cfg"), "-s", cfg["salt"], "--preserve-host-bits", str(cfg["B4"])]
+            argv += (["-p"] if pwd else []) + ((["-u"] if undo_ else ["-a"]) if ip else []) + (["-w", ",".join(case["words"])] if words else []) + (["-n", ",".join(case["asns"])] if asn else [])
+            argv += (["-r", ",".join(case["reserved"])] if case["reserved"] else []) + (["--preserve-prefixes", ",".join(cfg["prefixes"])] if cfg["prefixes"] else []) + (["--preserve-addresses", ",".join(cfg["networks"])] if cfg.get("networks") else [])
+            _, exc = guarded(main, argv)
+            if exc is not None:
+                return core.exc_finding(exc, case, "main/")
+            got = open(os.path.join(d, "out.cfg"), encoding="utf-8", newline="").read() if os.path.exists(os.path.join(d, "out.cfg")) else None
+        finally:
+            shutil.rmtree(d, ignore_errors=True)
+        if got != multi:
+            gl, ml_ = (got or "").split("\n"), multi.split("\n")
+            i = next((i for i, (a, b) in enumerate(zip(gl, ml_)) if a != b), 0)
+            return Finding("chain/command-line-differs-from-library:%s" % "".join("pinw"[i_] if f else "-" for i_, f in enumerate((pwd, ip, asn, words))) + (":undo" if undo_ else ""), "argv %r, line %r: command line %r, FileAnonymizer %r" % (argv[4:], case["lines"][i] if i < len(case["lines"]) else None, gl[i] if i < len(gl) else None, ml_[i] if i < len(ml_) else None), case)
     cur = text
     stages = []
     changed_by = [0] * len(case["lines"])
@@ -74,7 +101,7 @@ def check_chain(case, ev):
         stages.append(name)
         cur = nxt
     nfeat = sum(1 for x in (pwd, ip, words, asn) if x)
-    ev.case(case, nfeat >= 2 and any(c >= 2 for c in changed_by), ["features-" + "".join("pinw"[i] if f else "-" for i, f in enumerate((pwd, ip, asn, words))), "undo" if case["undo"] and ip else "anonymize"] + (["split-ip"] if case.get("split_ip") else []))
+    ev.case(case, nfeat >= 2 and any(c >= 2 for c in changed_by), ["features-" + "".join("pinw"[i] if f else "-" for i, f in enumerate((pwd, ip, asn, words))), "undo" if case["undo"] and ip else "anonymize"] + (["split-ip"] if case.get("split_ip") else []) + (["also-command-line"] if case.get("cli") else []))
     if multi != cur:
         ml, cl = multi.split("\n"), cur.split("\n")
         i = next((i for i, (a, b) in enumerate(zip(ml, cl)) if a != b), 0)
@@ -143,6 +170,7 @@ def _case(draw):
         "features": draw(st.lists(st.booleans(), min_size=4, max_size=4)),
         "undo": draw(st.integers(0, 2)) == 0,
         "split_ip": draw(st.integers(0, 3)) == 0,
+        "cli": draw(st.integers(0, 3)) == 0,
         "lines": [l.replace("\n", " ") if draw(st.integers(0, 7)) else l.replace("\n", " ").replace(" ", draw(st.sampled_from(["\x0b", "\x0c", "\x1c", "\x1d", "\x85", "\u2028", "\r", "\t"])), 1) for l in lines],
     }
 
